@@ -59,6 +59,9 @@ func c14FormName(narrow bool, input string) string {
 	if narrow {
 		return "x"
 	}
+	if vfParam("C14.formAlnum", 0) == 1 { // the thorough tier trades the byte class for more fields (bounds as run clean)
+		return vfString(input, 1, 1, "alnum")
+	}
 	return vfString(input, 1, 1, "tag")
 }
 
